@@ -140,9 +140,7 @@ func propRecover(c RecoverCase) (o pbt.Outcome) {
 	o.Label("serverSide=%v", c.ServerSide)
 	o.Label("rounds=%d", len(c.DeadlineMs))
 	o.Label("chunk>1pdu=%v", c.Chunk > 32768)
-	// the stream the peer must see: S[0:acc] (+ possibly fragments of the call
-	// that timed out while it was queueing them - fewer than one 32 KiB chunk of
-	// the same stream), then the tail
+	// the stream the peer must see: exactly S[0:acc], then the tail
 	want := make([]byte, acc+32768)
 	e2e.PRFFill(key, 0, want)
 	deadline := time.Now().Add(45 * time.Second)
@@ -157,7 +155,7 @@ func propRecover(c RecoverCase) (o pbt.Outcome) {
 		// everything before a possible tail must be the written stream
 		k := len(g) - len(tail)
 		if k >= 0 && bytes.Equal(g[k:], tail) {
-			if int64(k) < acc || int64(k) >= acc+32768 || !bytes.Equal(g[:k], want[:k]) {
+			if int64(k) != acc || !bytes.Equal(g[:k], want[:k]) {
 				o.Failf("recover/data", "Write reported %d bytes written (with %d timeouts in between); the peer read %d bytes before the tail, and they are not the first %d bytes of what was written", acc, timeouts, k, k)
 			}
 			return
